@@ -8,7 +8,9 @@ DECIDED = ("R10.1: in the public forced-boolean install root, every path that al
            "the whole signature text (refutable by a nested fn type such as `fn() -> fn() -> bool`): it must compare an extracted return type "
            "for equality with `bool`; R10.3: the stub decodes to exactly `result register := value ; return` (x86-64: mov into rax/eax/al with "
            "bit 0 = the requested value and bits 1..7 = 0, then ret; AArch64: MOVZ w/x0 then RET x30; ARM: branch to a crate function whose "
-           "body returns the constant selected by the value), writes no other register and has no stack effect; R10.4: the stub fits its mapping")
+           "body returns the constant selected by the value), writes no other register and has no stack effect; R10.4: the stub fits its mapping; "
+           "R10.5: on every returning path of the forced-boolean roots the entry patch decodes to a transfer to the stub (the decision of "
+           "C01 R1.1 / C15 / C16 restricted to these roots: no call returns the value unless it gets to the stub)")
 NOT_DECIDED = ("exactness of the string-parsing helper over all type-name strings (only the deny-listed affix shapes and the equality "
                "requirement are decided); that the CPU executes the stub as tabulated")
 
@@ -128,6 +130,10 @@ def run(ck, models, tier):
             ck.ob("R10.1", "%s/refusal-path" % rn, tm.target, bool(refused),
                   "%d path(s) on which the signature test fails and the call diverges before any allocation or write" % len(refused))
             ck.floor("R10.1", "%s/paths-with-effects" % rn, n_eff, 1, tm.target)
+        # R10.5 a call gets to the stub: the entry patch of the forced-boolean roots transfers to the stub's mapping
+        broots = {p for p, _, _ in br}
+        k = patches.reach_obligations(ck, "R10.5", tm, lambda r: r.root in broots and (r.role == "entry"), "call-reaches-stub")
+        ck.floor("R10.5", "forced-boolean-entry-patches-decoded", k, 1, tm.target)
         # R10.3 the stub
         recs = patches.analyse(tm)
         n_stub = 0
